@@ -20,7 +20,7 @@ def main(tier, seed):
     ctx = run.Ctx('C12', tier, seed)
     exe = mpmon.exe()
     wd = ctx.workdir()
-    ncases = ctx.n(2500, 60000)
+    ncases = ctx.n(8000, 200000)
 
     def one(k):
         rng = random.Random('%d/%d' % (seed, k))
